@@ -144,6 +144,9 @@ func (f *FieldCopyToGenerator) genZeroValue(fieldName string) func(*j.Group) {
 		// v.Null = v.Value == ""
 		if f.ZeroValue != "" {
 			g.Id("v.Null").Op("=").Id(f.i.WithType(f.ValueCastToType)).Parens(j.Id(fieldName)).Op("==").Id(f.ZeroValue)
+		} else if f.OneOfName != "" && !f.IsNullable {
+			// A oneof branch without a zero literal is null unless it is the active branch
+			g.Id("v.Null").Op("=").Id("!active")
 		} else {
 			g.Id("v.Null").Op("=").False()
 		}
@@ -272,6 +275,10 @@ func (f *FieldCopyToGenerator) genOneOfStub(g *j.Group) {
 	//     if !ok { obj = &Test_Branch3{} }
 	// }
 	g.List(j.Id("obj"), j.Id("ok")).Op(":=").Id("obj." + f.OneOfName).Assert(j.Id("*" + f.i.WithType(f.OneOfType)))
+	if f.Kind == PrimitiveKind && f.ZeroValue == "" && !f.IsNullable {
+		// active := ok (the zero value of such a branch cannot be told from an unset branch)
+		g.Id("active").Op(":=").Id("ok")
+	}
 	g.If(j.Id("!ok")).Block(
 		j.Id("obj").Op("=").Id("&" + f.i.WithType(f.OneOfType)).Values(),
 	)
